@@ -65,6 +65,12 @@ fn core() -> &'static Vec<Prog> {
         v.push(Prog { nlocs: 1, pre: vec![], threads: vec![vec![], vec![st(0, 1, Rlx)], vec![Op::UnsyncLoad { loc: 0 }]] });
         v.push(Prog { nlocs: 1, pre: vec![st(0, 1, Rlx)], threads: vec![vec![], vec![Op::UnsyncLoad { loc: 0 }], vec![Op::Load { loc: 0, ord: Rlx }]] });
         v.push(Prog { nlocs: 1, pre: vec![], threads: vec![vec![], vec![st(0, 1, Rel)], vec![aw(0, Acq), Op::UnsyncLoad { loc: 0 }]] });
+        // unsync_load followed by a release RMW; the other thread's RMW acquires it (ordering from the RMW's own load half)
+        for &r1 in &RMW_ORDS {
+            for &r2 in &RMW_ORDS {
+                v.push(Prog { nlocs: 1, pre: vec![], threads: vec![vec![aw(0, Rlx), Op::Swap { loc: 0, val: 2, ord: r2 }], vec![Op::UnsyncLoad { loc: 0 }, Op::Swap { loc: 0, val: 7, ord: r1 }]] });
+            }
+        }
         v
     })
 }
